@@ -16,6 +16,7 @@ import (
 	"runtime"
 	"runtime/debug"
 	"testing"
+	"time"
 )
 
 type input struct {
@@ -67,7 +68,9 @@ func pop(name, kind string) uint64 {
 		panic("verifrt: no witness selected (harness run outside Replay)")
 	}
 	if pos >= len(cur.Inputs) {
-		panic(mismatch{fmt.Sprintf("input %s (%s) requested beyond witness end", name, kind)})
+		// inputs created after the recorded event are unconstrained: any value does
+		pos++
+		return 0
 	}
 	in := cur.Inputs[pos]
 	pos++
@@ -165,6 +168,33 @@ func NoPanic(id string, f func()) {
 		}
 	}()
 	f()
+}
+
+// Bounded runs f and reports whether it finished within the budget: in the
+// engine the budget is a number of interpreted SSA steps; natively it is a
+// wall-clock limit, after which abort() is called (and f is awaited).
+func Bounded(steps int, f func(), abort func()) (finished bool) {
+	done := make(chan any, 1)
+	go func() {
+		defer func() { done <- recover() }()
+		f()
+	}()
+	select {
+	case p := <-done:
+		if p != nil {
+			panic(p)
+		}
+		return true
+	case <-time.After(4 * time.Second):
+		if abort != nil {
+			abort()
+		}
+		select {
+		case <-done:
+		case <-time.After(4 * time.Second):
+		}
+		return false
+	}
 }
 
 // Note records an observation (shown in evidence samples; no verdict).
